@@ -388,7 +388,7 @@ void run_idle_sweep(Judge& j, uint64_t nbase, int max_idle, const std::vector<in
     uint64_t idx = 0;
     Knobs k; k.pubs_max = 6; k.suffix = 12 * SEC; k.span = 1 * SEC; k.faults_max = 1; k.bad_attempts_max = 1; k.big_payload_pct = 0;
     k.rm_choices = {0, 0, 1, 2, 5, 10, 65535}; k.authenticator_pct = 30; k.server_disconnect_pct = 40;
-    const uint64_t nmini = 6;    // deterministic small bases on top of the seeded ones (see below)
+    const uint64_t nmini = 14;   // deterministic small bases on top of the seeded ones (see below)
     for (uint64_t bi = 0; bi < nbase + nmini; ++bi) {
         vu::Rng rng(ctx.seed * 31337 + bi * 104729);
         Scenario base = gen_mix(rng, k, "idle-base");
@@ -400,10 +400,27 @@ void run_idle_sweep(Judge& j, uint64_t nbase, int max_idle, const std::vector<in
             base.net.latency_min = base.net.latency_max = 200 * US;
             int variant = (int)(bi - nbase);     // request outstanding: none / QoS 1 / QoS 2; Server reason code 0x00 / 0x8B
             Action r; r.kind = Action::run; base.script.push_back(r);
+            if (variant >= 6 && variant < 10) {
+                // re-authentication whose AUTH packet is the only thing in flight: while reconnecting after a connection loss
+                // (the write waits for the connection lock) or while a slow write completion is outstanding
+                base.ccfg.use_authenticator = true; base.ccfg.auth_method = "SIM-AUTH"; base.broker_auth_rounds = variant % 2;
+                if (variant < 8) { Action kx; kx.kind = Action::net_kill; kx.at = 250 * MS; kx.ec = 1; base.script.push_back(kx); }
+                else base.net.write_done_delay_max = 400 * MS;
+                Action ra; ra.kind = Action::reauth; ra.at = variant < 8 ? 260 * MS : 300 * MS; base.script.push_back(ra);
+                base.end = 8 * SEC;
+            } else if (variant >= 10) {
+                // acknowledgements overtake slow write completions while inbound messages keep the sender busy
+                base.net.write_done_delay_max = variant % 2 ? 400 * MS : 60 * MS;
+                Action p; p.kind = Action::publish; p.at = 250 * MS; p.qos = variant < 12 ? 2 : 1; p.topic = "x"; p.payload = "y"; base.script.push_back(p);
+                Action sb; sb.kind = Action::subscribe; sb.at = 250 * MS; sb.subs = {{"s/+", 1}}; base.script.push_back(sb);
+                for (int q = 0; q < 3; ++q) { Action in; in.kind = Action::broker_publish; in.at = (252 + 40 * q) * MS; in.qos = 1 + q % 2; in.topic = "i"; in.payload = "in"; base.script.push_back(in); }
+                base.end = 8 * SEC;
+            } else {
             if (variant % 3) { Action p; p.kind = Action::publish; p.at = 250 * MS; p.qos = variant % 3; p.topic = "x"; p.payload = "y"; base.script.push_back(p); }
             Action d; d.kind = Action::broker_disconnect; d.at = 300 * MS; d.rc = variant / 3 ? 0x8B : 0x00; d.payload = "last words"; base.script.push_back(d);
             if (variant % 2) { Action d2 = d; d2.at = 2 * SEC; base.script.push_back(d2); }
             base.end = 8 * SEC;
+            }
         }
         if (rng.chance(1, 3)) base.net.shutdown_hangs = true;
         // slow paths: the terminal action then meets a connect in progress, a handshake in flight or a write being drained
